@@ -209,8 +209,8 @@ def region_job(job):
     n, bad, acc = 0, [], 0
     for base, vs in job["groups"]:
         want = outcome(pp, root, base)
-        if want[0] != "ok":
-            continue
+        if want[0] != "ok" or (job.get("need") and job["need"] not in json.dumps(want[1])):
+            continue   # the base sentence must have been matched through the region
         acc += 1
         for v in vs:
             n += 1
@@ -220,6 +220,31 @@ def region_job(job):
                             "expected": "a result different from " + json.dumps(want), "actual": got})
                 break
     return n, bad, acc
+
+
+def mixed_or_jobs(ctx, n):
+    """an Or ('^') with a non-skipping alternative (led by a negative lookahead / a leave_whitespace()d token) next to
+    ordinary skipping ones, without trailing optional parts (those are the registered finding's region): whichever
+    alternative wins, gaps and comments in front of it are transparent"""
+    jobs = []
+    for i in range(n):
+        r = random.Random(f"C09-{ctx.seed}-mixor-{i}")
+        prog = [["nm", "Word", "xyz"], ["eq", "Literal", "="], ["sc", "Literal", ";"], ["kw", "Keyword", "ab"], ["w", "Word", "ab"],
+                ["n1", "Word", "01"], ["dot", "Literal", "."], ["nk", "~", "kw"], ["a1", "+", "nk", "w"],
+                ["a3", "And", ["n1", "dot", "n1"]]]
+        alts = ["a1", "n1", "a3"]
+        r.shuffle(alts)
+        prog.append(["val", "Or", alts[: r.choice([2, 3])] if "a1" in alts[:2] else ["a1"] + alts[:2]])
+        prog.append(["root", "And", ["nm", "eq", "val", "sc"]])
+        comment = None
+        if r.random() < 0.5:
+            prog += [["cm", "Literal", "#"], ["_", "ignore", "root", "cm"]]
+            comment = "#"
+        groups = []
+        for toks in (["x", "=", "10", ";"], ["y", "=", "1", ".", "0", ";"], ["z", "=", "ba", ";"], ["x", "=", "0", ";"]):
+            groups.append(variants(r, toks, comment))
+        jobs.append(dict(prog=prog, root="root", groups=groups))
+    return jobs
 
 
 def gen_jobs(ctx, tag, n, with_comment):
@@ -335,6 +360,19 @@ def run(ctx):
     run_oracle(ctx, "oracle:gap-variation", jobs)
     jobs_c = gen_jobs(ctx, "cm", ctx.budget(1200, 12000), True)
     run_oracle(ctx, "oracle:comment-insertion", jobs_c)
+    run_oracle(ctx, "oracle:mixed-or", mixed_or_jobs(ctx, ctx.budget(400, 4000)))
+    # the converse clause behind a Forward: `w + F` with F <<= a non-skipping expression - a gap in front of F is not skipped
+    from . import c01
+    # (bodies led by a negative lookahead are not regions: the element after the lookahead skips as usual)
+    fj = [j for j in c01.forward_flag_jobs(f"C09-{ctx.seed}", ctx.budget(300, 3000)) if not any(st[0] == "nk" for st in j["prog"])]
+    fres = common.pmap(region_job, [dict(prog=j["prog"], root=j["root"], need="!", groups=[("hi!", ["hi !", "hi\n!", "hi  !"])]) for j in fj])
+    badf = [m for r_ in fres for m in r_[1]]
+    ctx.count_cases("oracle:gap-before-nonskipping-forward", sum(r_[0] for r_ in fres),
+                    outcomes={"variants": sum(r_[0] for r_ in fres), "accepted base sentences": sum(r_[2] for r_ in fres), "skipped gap": len(badf)})
+    for m in sorted(badf, key=lambda m: len(m["input"]))[:2]:
+        ctx.fail_input("a gap in front of a non-skipping (leave_whitespace) region reached through a Forward was skipped",
+                       {"region": True, **{k: m[k] for k in ("prog", "root", "base", "input")}}, m["expected"], m["actual"],
+                       theorem="PP.Parse.preParse_noskip (oracle)", how="harness.props.c09.region_job")
     # the converse clause on generated regions
     rj = region_jobs(ctx, ctx.budget(1500, 15000))
     res = common.pmap(region_job, rj)
